@@ -51,7 +51,7 @@ def gen(prop, stream, tier, avoid):
     max_n = 12 if tier == "quick" else kn.pick([12, 12, 24, 40])
     knobs = {"cache_size": None, "bufsize": kn.pick([64, 512, 8192]), "chunk": kn.pick(["default", "one", "all"]),
              "sched": kn.randrange(1 << 30), "fault_p": kn.pick([0.0, 0.0, 0.0, 0.2])}
-    nobj = kn.pick([1, 1, 2, 3])
+    nobj = kn.pick([1, 2, 2, 3, 3, 4])
     objs = []
     for _ in range(nobj):
         spec = shapes.gen_shape(rng, kind="surface", max_size=6, max_degree=3, dim=3)
@@ -67,9 +67,12 @@ def gen(prop, stream, tier, avoid):
     ops = []
     pool_faults = []
     ncalls = 0
+    if use_cont and rng.chance(0.6):
+        for i in range(rng.randint(1, nobj)):
+            ops.append({"op": "cadd", "obj": i})
     for _ in range(nops):
         k = rng.weighted(W)
-        op = {"op": k, "obj": rng.randrange(3)}
+        op = {"op": k, "obj": rng.randrange(4)}
         if k == "sample":
             op["n"] = [rng.randint(2, max_n), rng.randint(2, max_n)] if rng.chance(0.6) else [rng.randint(2, max_n)] * 2
             op["how"] = rng.pick(["sample_size", "uv", "delta"])
@@ -507,7 +510,7 @@ def run(script, ctx):
                 ctx.fail("mesh_invalid", "quad tessellation does not tile the sample grid exactly once with consistent orientation", check="cell_tiling", **qsig)
             ctx.probe("quad_checked")
         elif k == "cadd":
-            if i in members or len(members) >= 3:
+            if i in members or len(members) >= 4:
                 ctx.ops_skipped += 1
                 continue
             cont.add(s)
